@@ -24,6 +24,8 @@ func aggNameOf(name, kind string) string {
 	switch o.Kind {
 	case "safety":
 		return "safety"
+	case "frame":
+		return "frame"
 	case "arith":
 		return "arith"
 	case "inv.init", "inv.keep":
